@@ -199,7 +199,13 @@ def impl(case):
         return _impl_auxopen(case)
     if op == 'auxpath':
         return {'root': os.path.splitext(case['s'])[0]}
-    return _impl_consts(case)
+    try:
+        return _impl_consts(case)
+    except (LookupError, AttributeError, TypeError, ValueError, OSError, SyntaxError) as e:
+        # the literals are read off the syntax trees of private code: a tree in which they cannot be found where the reader looks
+        # (a refactoring moved a message into a helper or a table) is not compared on this op -- the texts themselves are compared
+        # through the reports of the auxio / aux families on every run (reconcile in props/c20.py)
+        return {'private_shape': 'unreadable', 'why': '%s: %s' % (type(e).__name__, e)}
 
 
 def to_request(case):
